@@ -1,12 +1,13 @@
 """Per-property and per-suite configuration of the orchestrator."""
 
 # .vo files Extract.v depends on (built before extraction)
-EXTRACT_DEPS = ['Codec/FilterCase.vo', 'Agent/ReasmRs.vo']
+EXTRACT_DEPS = ['Codec/FilterCase.vo', 'Agent/ReasmRs.vo', 'Agent/Model.vo', 'Agent/Monitors.vo']
 
 SUITES = {
     # bin: harness binary; driver: suite name given to ocaml/driver; nontrivial: regex on the record line
     'filter': dict(bin='filter', nontrivial=r'^C \S+ \S*[MSF]\S*[OMSF]'),
     # non-trivial: at least two chunks
+    'agent': dict(bin='agent', nontrivial=r'^H '),
     'reasm': dict(bin='reasm', nontrivial=r'^C \d+ \S+ \S+'),
 }
 
@@ -31,5 +32,22 @@ PROPS = {
              'one-byte chunks; the caller loop re-feeds the remainder of a chunk to a new decoder. distinct = distinct record lines; '
              'non-trivial = at least two chunks',
         assumptions=['the caller allocates a new buffer of the same size for every new decoder (as the documentation shows)'],
+    ),
+    'C05': dict(
+        suites=['agent'],
+        monitors=['C05'],
+        rule='suite agent: random histories (8-60 operations) of a StunClient over {send_request, send_indication, on_buffer_recv of crafted '
+             'replies, on_timeout on time / early / late up to beyond the deadline}, configurations reliable/unreliable x RTO x Rm x Rc x limit 0-10 '
+             'x {no mechanism, short-term x3, long-term} x fingerprint; replies addressed to outstanding, finished and unknown ids, valid / corrupted / '
+             'wrongly keyed / absent integrity, valid / corrupted / absent / misplaced FINGERPRINT, undecodable bytes; every return value, event list '
+             'and hook snapshot compared with the model; distinct = distinct histories, every history is non-trivial',
+        assumptions=['transaction ids drawn by the implementation are pairwise distinct (checked by the harness, not proved)',
+                     'instants passed to the client are monotone'],
+    ),
+    'C03': dict(
+        suites=['agent', 'reasm'],
+        monitors=['C03', 'C03reasm'],
+        rule='suites agent and reasm (see C05, C16): every call is made under catch_unwind; a panic is the result PANIC',
+        assumptions=['external crates (PRECIS tables, pest runtime, base64, hash crates) are total functions in the model'],
     ),
 }
